@@ -12,8 +12,8 @@ ToSetS(s) == {s[i] : i \in DOMAIN s}
 AsPairs(m) == {<<m[i].c, m[i].t>> : i \in DOMAIN m}
 \* JSON carries the category sets as arrays
 Norm(s) == [j \in DOMAIN s |-> [s[j] EXCEPT !.own = ToSetS(@), !.cats = ToSetS(@)]]
-Cfl(r) == IF r.lvl = "member" THEN Conflict(Norm(r.s)) ELSE TConflict(Norm(r.s))
-Want(r, j) == IF r.lvl = "member" THEN Eff(Norm(r.s), j) ELSE TEff(Norm(r.s), j)
+Cfl(r) == IF r.lvl = "member" THEN Conflict(Norm(r.s)) ELSE IF r.lvl = "vfield" THEN VConflict(Norm(r.s)) ELSE TConflict(Norm(r.s))
+Want(r, j) == IF r.lvl = "member" THEN Eff(Norm(r.s), j) ELSE IF r.lvl = "vfield" THEN VEff(Norm(r.s), j) ELSE TEff(Norm(r.s), j)
 Symptom(r) ==
   IF Cfl(r) THEN (IF r.v1 = "err" THEN "-" ELSE IF r.v1 = "panic" THEN "conflict_panics" ELSE "conflict_accepted")
   ELSE IF r.v1 # "ok" THEN "valid_repeat_rejected"
